@@ -821,6 +821,9 @@ def _(repo):
         ok = (f"jnp.dot({argn}, n[..., facet])" in src and "jnp.atleast_1d(" in src
               and ("border_batch = border_batch[..., facet]" in src if tag == "statio" else
                    "times_batch = batch.times_x_border_batch[:, 0:1, facet]" in src and "omega_border_batch = batch.times_x_border_batch[:, 1:, facet]" in src))
+        # every branch (pointwise and separable) recognises the 1-D case by the size of the coordinate axis, never by the number of points
+        dim_tests = [ast.unparse(n.test) for n in ast.walk(f) if isinstance(n, ast.If) and arr + ".shape[" in ast.unparse(n.test) and "== 1" in ast.unparse(n.test)]
+        ok = ok and len(dim_tests) == 2 and all(t == f"{arr}.shape[-1] == 1" for t in dim_tests)
         out.append(f"Definition gen_neumann_wiring_{tag} : bool := {'true' if ok else 'false'}.")
     return "\n".join(out)
 
